@@ -107,8 +107,31 @@ fn pos_of(d: (u32, u32)) -> Pos {
     Pos { line: d.0, col: d.1 }
 }
 
+/// The same characters with one line break moved or removed (a re-wrapped paragraph, Vim's `J`):
+/// char offsets stay, lines and columns change.
+fn reflow(text: &str) -> Option<String> {
+    let c: Vec<char> = text.chars().collect();
+    // a lone LF between two non-break characters becomes a space
+    if let Some(i) = (1..c.len().saturating_sub(1)).find(|&i| c[i] == '\n' && !matches!(c[i - 1], '\n' | '\r') && c[i + 1] != '\n') {
+        let mut o = c.clone();
+        o[i] = ' ';
+        return Some(o.into_iter().collect());
+    }
+    // otherwise the first space between two letters becomes a line break
+    let i = (1..c.len().saturating_sub(1)).find(|&i| c[i] == ' ' && c[i - 1].is_alphanumeric() && c[i + 1].is_alphanumeric())?;
+    let mut o = c.clone();
+    o[i] = '\n';
+    Some(o.into_iter().collect())
+}
+
 pub fn test_editor(c: &EditorCase, ctx: &mut CaseCtx) -> Result<(), String> {
+    test_editor_on(c, ctx)?;
+    Ok(())
+}
+
+fn test_editor_on(c: &EditorCase, ctx: &mut CaseCtx) -> Result<(), String> {
     let text: Vec<char> = c.text.chars().collect();
+    let reflowed = reflow(&c.text);
     let res = with_server(|sb, srv, n| {
         let uri = sb.uri(&format!("doc{n}.{}", ext_for(&c.lang)));
         let diags = srv.open(&uri, &c.lang, &c.text)?;
@@ -127,10 +150,15 @@ pub fn test_editor(c: &EditorCase, ctx: &mut CaseCtx) -> Result<(), String> {
                 answers.push((di, Some(p), a));
             }
         }
+        // the document re-wrapped: same characters, other lines and columns
+        let diags2 = match &reflowed {
+            Some(t2) => Some(srv.change(&uri, 2, t2)?),
+            None => None,
+        };
         srv.close(&uri)?;
-        Ok((uri, diags, answers))
+        Ok((uri, diags, answers, diags2))
     });
-    let (uri, diags, answers) = match res {
+    let (uri, diags, answers, diags2) = match res {
         Ok(v) => v,
         Err(e) => {
             ctx.infra(e);
@@ -224,6 +252,39 @@ pub fn test_editor(c: &EditorCase, ctx: &mut CaseCtx) -> Result<(), String> {
             ));
         }
     }
+    // after the re-wrap the published ranges are those of the new text
+    if let (Some(t2), Some(d2)) = (&reflowed, &diags2) {
+        if matches!(c.lang.as_str(), "plaintext" | "markdown" | "html" | "typst") {
+            let text2: Vec<char> = t2.chars().collect();
+            let fe = Frontend::of(&c.lang);
+            if let Some((parser, dict)) = fe.build(&text2) {
+                let doc = Document::new_from_vec(Lrc::new(text2.clone()), &parser, &dict);
+                let mut group = LintGroup::new_curated(harper_core::FstDictionary::curated(), Dialect::American);
+                if let Ok(lints) = crate::core::catch(|| group.lint(&doc)) {
+                    let mut want: Vec<String> = lints
+                        .iter()
+                        .map(|l| {
+                            let s = index_to_pos(&text2, l.span.start);
+                            let e = index_to_pos(&text2, l.span.end);
+                            Diag { start: (s.line, s.col), end: (e.line, e.col), message: l.message.clone(), severity: 4 }.key()
+                        })
+                        .collect();
+                    let mut got: Vec<String> = d2.iter().map(|d| d.key()).collect();
+                    want.sort();
+                    got.sort();
+                    if !want.is_empty() {
+                        ctx.class("rewrapped_document_with_lints");
+                    }
+                    if want != got {
+                        return Err(format!(
+                            "after the text was re-wrapped to {:?} (same characters, one line break changed) the published diagnostics are {:?}; the lints of that text lie at {:?}",
+                            t2, got, want
+                        ));
+                    }
+                }
+            }
+        }
+    }
     // in-process cross-check of the spans for front-ends without identifier dictionaries
     if matches!(c.lang.as_str(), "plaintext" | "markdown" | "html" | "typst") {
         let fe = Frontend::of(&c.lang);
@@ -281,6 +342,8 @@ fn editor_text() -> BoxedStrategy<String> {
         2 => (g::sel_str(&["😀 ", "𝒜𝒷 ", "e\u{301} ", "\t", "  \t", "中文 ", "👨\u{200d}👩\u{200d}👧 "]), g::sentence()).prop_map(|(a, s)| a + &s),
         2 => g::sel_str(&["Their is an apple.", "I could of done it teh right way.", "This is an test with an problm.", "the the cat", "An 1nd time.", "teh"]),
         // lints spanning three or more lines; overlapping lints whose fixes have the same title
+        // a quick fix that keeps a line break of the flagged text
+        1 => g::sel_str(&["It is not that big\nof a deal to me.", "That was not too long\nof a wait for us.", "It was not that good\nof an idea after all.", "It is not that 😀 big\nof a deal."]),
         2 => g::sel_str(&["I saw the\n  \nthe cat.", "I saw the\n\t\nthe cat", "I saw the the the cat.", "We think that that\nthat is fine.", "It is is is 😀 fine.", "an\n \n \napple and a\n\n\nan end"]),
         1 => proptest::collection::vec(g::plain_word(), 41..60).prop_map(|ws| {
             // a run-on sentence hard-wrapped over several lines
